@@ -291,6 +291,20 @@ func (c *Ctx) checkMultiCtor(rule, name, typ string) {
 			}
 		}
 	}
+	// every return hands out the multi reporter built here - not some other reporter for special cases
+	// (an empty children list answers Capabilities with the empty conjunction true/true, a stock no-op
+	// reporter does not)
+	for _, r := range returnsOf(fn) {
+		for _, va := range resultValues(r, 0) {
+			v := stripConv(va.Val)
+			al, isAl := canon(rootOf(v)).(*ssa.Alloc)
+			nt := c.named("multi", typ)
+			if !isAl || al.Parent() != fn || nt == nil || !types.Identical(deref(al.Type()), nt) {
+				c.bad(rule, key+":result", r.Pos(), "the constructor can return something other than the multi reporter it builds (a special case for some children lists): calls, capabilities and flushes are then not the fan-out over the children given", c.describe(r))
+				return
+			}
+		}
+	}
 	c.check(loopOK && gotR, rule, key, fn.Pos(), "children = the variadic slice itself; base list = in-order append over all of it",
 		"the constructor does not keep all children in the order given (children list is not the variadic slice, or "+why+")")
 }
